@@ -41,7 +41,7 @@ def check_unit(case, rec):
     cmd = case["cmd"]
     arrays = [A.make_array(s, case["shape"]) for s in case["arrays"]]
     sig = "%s|%s" % (cmd, A.input_class(arrays))
-    status, result = A.run_command(cmd, arrays, case["params"])
+    status, result = A.run_command(cmd, arrays, case["params"], aliases=case.get("aliases"))
     rec.label("cmd:" + cmd)
     if status == "err":
         rec.exclude("raised:" + A.exc_name(result).split("(")[0])
